@@ -37,7 +37,11 @@ def main():
     ap.add_argument('--all-checks', action='store_true')
     ap.add_argument('--tier', default='quick')
     ap.add_argument('--skip-tests', action='store_true')
+    ap.add_argument('--dir', default=None, help='directory of changes (default: /verif/seeded); e.g. /verif/refactors')
     args = ap.parse_args()
+    global SEEDED
+    if args.dir:
+        SEEDED = os.path.abspath(args.dir)
     ids = sorted(d for d in os.listdir(SEEDED) if os.path.isdir(os.path.join(SEEDED, d)))
     if args.only:
         ids = [i for i in ids if i in args.only.split(',')]
